@@ -415,7 +415,10 @@ def gen_case_ops(r, n, ex, kind):
             k = key(r.chance(85)); shadow.pop(k, None)
             yield f"P del {k}"
         elif x < 66:
-            yield f"P get {key(r.chance(60))} {rand_val(r)}"; mut = False
+            k = key(r.chance(60))
+            # a default that IS the stored value (identity / None sentinels) now and then
+            dv = shadow[k] if (k in shadow and r.chance(30)) else rand_val(r)
+            yield f"P get {k} {dv}"; mut = False
         elif x < 70:
             yield f"P getitem {key(r.chance(60))}"; mut = False
         elif x < 73:
@@ -425,13 +428,16 @@ def gen_case_ops(r, n, ex, kind):
         elif x < 80:
             k = key(r.chance(60))
             if r.chance(50): yield f"P pop {k}"
-            else: yield f"P pop {k} {rand_val(r)}"
+            else:
+                dv = shadow[k] if (k in shadow and r.chance(35)) else rand_val(r)
+                yield f"P pop {k} {dv}"
+                yield f"P in {k}"
             shadow.pop(k, None)
         elif x < 84:
             yield "P popitem"
             if shadow: shadow.pop(min(shadow))
         elif x < 87:
-            k = key(r.chance(50)); v = rand_val(r); shadow.setdefault(k, v)
+            k = key(r.chance(50)); v = shadow[k] if (k in shadow and r.chance(20)) else rand_val(r); shadow.setdefault(k, v)
             yield f"P setdefault {k} {v}"
         elif x < 90:
             m = r.below(6)
@@ -448,6 +454,51 @@ def gen_case_ops(r, n, ex, kind):
             yield f"P {r.pick(['items', 'keys', 'values', 'range'])} {a} {b}"; mut = False
         if mut and (n <= 80 or r.chance(15)):
             yield "P dump"
+    yield "P dump"
+    yield "P len"
+    yield "P items _ _"
+
+def gen_local(r, n):
+    """sparse ascending fill (every leaf at its post-split size), then episodes that fill the gap below a
+    pivot (the leaf left of it becomes full) and delete upwards from the pivot (its leaf underflows while the
+    right neighbour is minimal): exercises borrow-left / borrow-right / guarded merges at leaf and branch level"""
+    cap = r.pick([4, 5, 5, 6, 6, 7, 8, 9, 11])
+    yield f"flavour {r.pick(['int', 'int', 'str', 'custom'])}"
+    m = r.pick([20, 30, 60, 120])
+    if r.chance(50):
+        yield f"P fromsorted {cap} " + ",".join(f"{10 * i}:{i}" for i in range(m))
+    else:
+        yield f"P new {cap}"
+        for i in range(m): yield f"P set {10 * i} {i}"
+    yield "P dump"
+    live = set(10 * i for i in range(m))
+    ops = 0
+    while ops < n and live:
+        pivot = r.pick(sorted(live))
+        mode = r.below(4)
+        if mode == 0:       # fill below the pivot, then delete upwards from it
+            for j in range(1, 1 + r.below(cap + 1)):
+                k = pivot - j
+                if k not in live and k >= 0:
+                    live.add(k); ops += 1; yield f"P set {k} {j}"
+            up = [k for k in sorted(live) if k >= pivot][: 1 + r.below(cap)]
+            for k in up:
+                live.discard(k); ops += 1; yield f"P del {k}"; yield "P dump"
+        elif mode == 1:     # fill above the pivot, then delete downwards from it
+            for j in range(1, 1 + r.below(cap + 1)):
+                k = pivot + j
+                if k not in live:
+                    live.add(k); ops += 1; yield f"P set {k} {j}"
+            down = [k for k in sorted(live, reverse=True) if k <= pivot][: 1 + r.below(cap)]
+            for k in down:
+                live.discard(k); ops += 1; yield f"P del {k}"; yield "P dump"
+        elif mode == 2:     # delete a run
+            run = [k for k in sorted(live) if k >= pivot][: 1 + r.below(2 * cap)]
+            for k in run:
+                live.discard(k); ops += 1; yield f"P del {k}"
+            yield "P dump"
+        else:               # point queries and a scan around the pivot
+            yield f"P get {pivot} N"; yield f"P in {pivot + 1}"; yield f"P items {pivot - 15} {pivot + 25}"; ops += 3
     yield "P dump"
     yield "P len"
     yield "P items _ _"
@@ -524,7 +575,7 @@ def main():
     for _ in range(cases):
         caseno += 1
         ex.run_line(f"case {caseno}")
-        if suite == "py-ops": g = gen_case_ops(r, n, ex, "ops")
+        if suite == "py-ops": g = gen_local(r, n) if r.chance(30) else gen_case_ops(r, n, ex, "ops")
         elif suite == "py-range": g = gen_case_ops(r, n, ex, "range")
         elif suite == "py-deep": g = gen_deep(r, n)
         else: raise SystemExit("unknown suite " + suite)
